@@ -221,6 +221,11 @@ fn check_guard_drop(fair: bool, queue: &[usize]) {
         assert!(kit::total_wakes() == 0, "[C03] nobody to wake");
     }
     assert!(queue_ok(&w), "[C01] queue consistent after unlock");
+    let mut j = 0;
+    while j < N {
+        assert!(w.futs[j].is_terminated() == (w.st[j] == 3), "[C17] unlocking terminates no future: a notified lock future is not terminated until its poll returned Ready");
+        j += 1;
+    }
 }
 
 fn check_try_lock(fair: bool, queue: &[usize]) {
@@ -243,6 +248,8 @@ fn fresh_future_is_not_terminated() {
     let f = mx.lock();
     assert!(!f.is_terminated(), "[C17] is_terminated() is false from creation");
     assert!(!mx.is_locked(), "[C02] a new mutex is free");
+    assert!(f.wait_node.state == PollState::New && f.wait_node.task.is_none(), "[C03] [C04] a new lock future has not started waiting: it neither holds a notification nor a place in the order");
+    assert!(mx.state.lock().waiters.is_empty(), "[C01] creating a future does not touch the queue");
 }
 
 macro_rules! inst {
